@@ -255,6 +255,18 @@ impl RecordDecoder {
         let offsets = &self.offsets[..self.offsets_len];
         let num_rows = self.num_rows;
 
+        // The bytes of adjacent fields are stored back to back, so invalid UTF-8 split by a
+        // delimiter (e.g. `a\xE2,\x96\xA1`) can form valid UTF-8 once concatenated. Every field
+        // boundary must therefore be a character boundary, as `StringRecord::get` relies on
+        if let Some(idx) = offsets.iter().position(|x| !data.is_char_boundary(*x)) {
+            let field_idx = idx - 1;
+            let field = field_idx % self.num_columns + 1;
+            let line = self.line_number - self.num_rows + field_idx / self.num_columns;
+            return Err(ArrowError::CsvError(format!(
+                "Encountered invalid UTF-8 data for line {line} and field {field}"
+            )));
+        }
+
         // Reset state
         // `truncated_row_count` is deliberately left alone so that it accumulates
         // across the batches produced by a single decoder
